@@ -24,6 +24,19 @@ comparisons by PrimFloat.ltb/leb/eqb (false on NaN, like Rust), `f64::max/min` b
 Plain `+ - *` are the mathematical operations: an overflow (a debug-build panic) is not modelled
 here; the hand models that care carry their own overflow flag.
 
+Third batch (groups Reg, Trk, Batch, Crit, Cc, Cls): field-less enums become a generated Inductive with its
+`_eqb` (variants by name, `match` on them, methods taking `self`, associated functions `T::f(..)`); `opt ==
+Some(e)` / `== None`; let chains `if let Some(x) = e && c`; `& | % >>` (Z.land, Z.lor, Z.rem, Z.shiftr);
+narrowing `as u32` = `mod 2^32`; f64 <-> u32 casts; `is_finite`; atomic `fetch_max/fetch_min/fetch_add` as
+statements (max / min / wrapping sum stored); a call with outputs AND a value as the right-hand side of a
+`let` or inside `Some(..)`.  Four things are NOT translated but made explicit instead of approximated: a byte
+array / packet value is `tt` (its bytes are property C15's subject), so `Option<[u8; N]>` keeps "was one
+produced"; `self.<array>.copy_from_slice(&<slice param>[lo..hi])` is an extra output `Some (lo, hi)`; of a
+`&[u8]` parameter and of a `Vec` field only the length exists (`push` = +1); a listed untranslated method of
+self (OPAQUE_EFFECTS) may only be the LAST effect of a path and becomes an extra output `call_<m> = Some
+(arguments)`; `let e = &[mut] self.<array of struct>[i]` makes the function one of that single element
+(`e_slot` = i is an output, the element's fields are inputs/outputs named `e_<field>`).
+
 A function that cannot be translated (syntax outside the subset, missing) is reported in the
 JSON summary under "failed"; check.py treats that like a broken obligation.
 """
